@@ -16,6 +16,36 @@ import numpy as np
 _CUSTOM = {}
 
 
+def _flat_custom_class():
+    """module-level (picklable) CustomCosmology subclass returning plain floats"""
+    global FlatCustom
+    if "FlatCustom" not in globals():
+        import astropy.cosmology as ac
+
+        from yaw.cosmology import CustomCosmology
+
+        class FlatCustom(CustomCosmology):
+            def __init__(self):
+                self._c = ac.FlatLambdaCDM(H0=70.0, Om0=0.3)
+
+            def comoving_distance(self, z):
+                return np.asarray(self._c.comoving_distance(z).value)
+
+            def angular_diameter_distance(self, z):
+                return np.asarray(self._c.angular_diameter_distance(z).value)
+
+        FlatCustom.__qualname__ = "FlatCustom"
+        FlatCustom.__module__ = __name__
+        globals()["FlatCustom"] = FlatCustom
+    return globals()["FlatCustom"]
+
+
+def __getattr__(name):
+    if name == "FlatCustom":
+        return _flat_custom_class()
+    raise AttributeError(name)
+
+
 def get_cosmology(name: str):
     """'Planck15', 'WMAP9', ... or 'custom' (a CustomCosmology subclass that
     returns plain floats, exercising the non-Quantity code path)"""
@@ -23,19 +53,7 @@ def get_cosmology(name: str):
 
     if name == "custom":
         if "custom" not in _CUSTOM:
-            from yaw.cosmology import CustomCosmology
-
-            class FlatCustom(CustomCosmology):
-                def __init__(self):
-                    self._c = ac.FlatLambdaCDM(H0=70.0, Om0=0.3)
-
-                def comoving_distance(self, z):
-                    return np.asarray(self._c.comoving_distance(z).value)
-
-                def angular_diameter_distance(self, z):
-                    return np.asarray(self._c.angular_diameter_distance(z).value)
-
-            _CUSTOM["custom"] = FlatCustom()
+            _CUSTOM["custom"] = _flat_custom_class()()
         return _CUSTOM["custom"]
     return getattr(ac, name)
 
